@@ -618,7 +618,7 @@ inline P make(const Case& rc) {
     case F_FI_S: { uint8_t lg = static_cast<uint8_t>(3 + a % 6); obj.reset(new FiObj<std::string>(frequent_items_sketch<std::string>(lg), lg)); break; }
     case F_CM: obj.reset(new CmObj(count_min_sketch<uint64_t>(static_cast<uint8_t>(1 + a % 6), static_cast<uint32_t>(3 + b % 300), seed), seed)); break;
     case F_VO_I: obj.reset(new VoObj<int64_t>(var_opt_sketch<int64_t>(1 + static_cast<uint32_t>(a % 40), static_cast<resize_factor>(b % 4)), 0)); break;
-    case F_VO_S: obj.reset(new VoObj<std::string>(var_opt_sketch<std::string>(1 + static_cast<uint32_t>(a % 40), static_cast<resize_factor>(b % 4)), 0)); break;
+    case F_VO_S: obj.reset(new VoObj<std::string>(var_opt_sketch<std::string>(1 + static_cast<uint32_t>(a % 40), static_cast<resize_factor>(b % 4)), (rc.get("ls", 0) & 1) ? (1ull << 40) : 0)); break;  // "ls": ids from 2^40 give 17-character items, which own heap memory
     case F_VOU: { uint32_t mk = 1 + static_cast<uint32_t>(a % 40); obj.reset(new VouObj(var_opt_union<int64_t>(mk), mk, 0)); break; }
     case F_EBPPS: obj.reset(new EbObj(ebpps_sketch<int64_t>(1 + static_cast<uint32_t>(a % 40)), 0)); break;
     case F_TD_D: { static const uint16_t ks[] = {10, 20, 50, 100, 200}; obj.reset(new TdObj<double>(tdigest<double>(ks[a % 5]))); break; }
@@ -641,7 +641,7 @@ inline rc::Gen<Case> recipe_gen(rc::Gen<int64_t> famgen) {
   auto mk = rc::gen::map(rc::gen::tuple(nGen, range(0, 7), range(0, 1 << 20), range(0, 63)), [](std::tuple<int64_t, int64_t, int64_t, int64_t> t) { return Op{"mk", {std::get<0>(t), std::get<1>(t), std::get<2>(t), std::get<3>(t)}}; });
   auto ops = oplist(choose({{6, u}, {1, m}, {1, mk}}), 1, 0.05);
   return make_case({{"fam", std::move(famgen)}, {"a", range(0, 1 << 16)}, {"b", range(0, 1 << 16)}, {"c", range(0, 1 << 16)},
-                    {"seed", rc::gen::weightedOneOf<int64_t>({{3, rc::gen::just<int64_t>(0)}, {1, range(1, 1000)}})}, {"rnd", range(1, 1 << 20)}, {"t", range(0, 1)}},
+                    {"seed", rc::gen::weightedOneOf<int64_t>({{3, rc::gen::just<int64_t>(0)}, {1, range(1, 1000)}})}, {"rnd", range(1, 1 << 20)}, {"t", range(0, 1)}, {"ls", range(0, 1)}},
                    ops);
 }
 
